@@ -26,7 +26,7 @@ def variant(cfg):
             'empty': (h // 3) % 4 == 1,                                  # the segment n-1 (or the whole object) has empty content
             'default_retry': cfg['retry'] == 3 and (h // 2) % 2 == 0,     # retry_times omitted (default 3)
             'default_timeout': (h // 5) % 5 == 2,                        # timeout omitted (default 4000 ms)
-            'name_repr': ('str', 'list', 'wire')[(h // 7) % 3]}
+            'name_repr': ('str', 'list', 'wire', 'iter', 'tuple', 'wirebuf')[(h // 7 + h) % 6]}
 
 
 class Scenario:
@@ -84,6 +84,12 @@ class Scenario:
             return enc.Name.from_str(PREFIX)
         if r == 'wire':
             return enc.Name.to_bytes(PREFIX)
+        if r == 'iter':
+            return (c for c in enc.Name.from_str(PREFIX))          # a one-shot iterator: the fetcher needs the name for every request
+        if r == 'tuple':
+            return tuple(enc.Name.from_str(PREFIX))
+        if r == 'wirebuf':
+            return bytearray(enc.Name.to_bytes(PREFIX))
         return PREFIX
 
     def content_of(self, s):
